@@ -132,6 +132,46 @@ Proof.
     split_ifs; simpl; try discriminate; reflexivity.
 Qed.
 
+(** ... and complete: a result that is (Leibniz-)equal to the argument is flagged.  Together: on
+    these trees Python's [result is e] holds exactly when the result equals [e]; no tree of the
+    family is rebuilt unchanged. *)
+Fixpoint size (e : GA.id_expr) : nat :=
+  match e with
+  | GA.IdAdd a b | GA.IdMultiply a b => S (size a + size b)
+  | _ => 1
+  end.
+
+Lemma exhaust_size : forall e t, (size (fst (G.exhaust_tensor e t)) <= size e)%nat.
+Proof.
+  induction e; intros t; cbn [G.exhaust_tensor]; try (simpl; lia).
+  - destruct (String.eqb id t); simpl; lia.
+  - specialize (IHe1 t). specialize (IHe2 t).
+    destruct (G.exhaust_tensor e1 t) as [a sa]; destruct (G.exhaust_tensor e2 t) as [b sb].
+    cbn [fst] in *. split_ifs; cbn [fst size]; lia.
+  - specialize (IHe1 t). specialize (IHe2 t).
+    destruct (G.exhaust_tensor e1 t) as [a sa]; destruct (G.exhaust_tensor e2 t) as [b sb].
+    cbn [fst] in *. split_ifs; cbn [fst size]; lia.
+Qed.
+
+(** the converse of [gen_exhaust_flag_sound]: a result equal to the argument IS the argument *)
+Theorem gen_exhaust_flag_complete : forall e t,
+  fst (G.exhaust_tensor e t) = e -> snd (G.exhaust_tensor e t) = true.
+Proof.
+  induction e; intros t; cbn [G.exhaust_tensor]; try reflexivity.
+  - destruct (String.eqb id t); simpl; [discriminate | reflexivity].
+  - pose proof (exhaust_size e1 t) as S1. pose proof (exhaust_size e2 t) as S2.
+    specialize (IHe1 t). specialize (IHe2 t).
+    destruct (G.exhaust_tensor e1 t) as [a sa]; destruct (G.exhaust_tensor e2 t) as [b sb].
+    cbn [fst snd] in *. split_ifs; cbn [fst snd]; intros H; try reflexivity;
+      try (exfalso; subst; cbn [size] in *; lia).
+    inversion H; subst. rewrite (IHe1 eq_refl), (IHe2 eq_refl) in *. discriminate.
+  - pose proof (exhaust_size e1 t) as S1. pose proof (exhaust_size e2 t) as S2.
+    specialize (IHe1 t). specialize (IHe2 t).
+    destruct (G.exhaust_tensor e1 t) as [a sa]; destruct (G.exhaust_tensor e2 t) as [b sb].
+    cbn [fst snd] in *. split_ifs; cbn [fst snd]; intros H; try reflexivity; try discriminate.
+    inversion H; subst. rewrite (IHe1 eq_refl), (IHe2 eq_refl) in *. discriminate.
+Qed.
+
 (* ------------------------------------------------------------------------------------------ *)
 (** * the [is_sparse] projection against model/Context.v (C16) *)
 
